@@ -499,3 +499,31 @@ Proof.
   destruct v as [i|l]; [exact I|].
   apply andb_true_iff in Ce as [Ce _]. apply andb_true_iff in Ce as [Ce _]. exact Ce.
 Qed.
+
+(* ------------------------------------------------------------------ the '?' prefix *)
+Lemma all_pairs_nonempty cdl m :
+  forallb (canonical_entry cdl) m = true -> is_nil m = false -> all_pairs cdl m <> [].
+Proof.
+  intros Ce Hm. unfold all_pairs. destruct m as [|[k v] m2]; [discriminate Hm|]. cbn [flat_map fst snd].
+  cbn [forallb] in Ce. apply andb_true_iff in Ce as [Ckv _].
+  unfold canonical_entry in Ckv. cbn [fst snd] in Ckv.
+  destruct v as [i|l]; cbn [item_pairs]; [discriminate|].
+  destruct cdl; [discriminate|]. destruct l as [|i1 l]; [discriminate | discriminate].
+Qed.
+
+Theorem qs_prefix m cdl :
+  canonical cdl m = true -> mapping_scalar m = true -> is_nil m = false ->
+  exists q, to_query_str m cdl false = Ok q /\ to_query_str m cdl true = Ok (63 :: q).
+Proof.
+  intros C S Hm. unfold canonical in C. unfold mapping_scalar in S. apply andb_true_iff in C as [Ce _].
+  assert (Eok : forallb entry_ok m = true).
+  { apply forallb_forall. intros kv Hkv. rewrite forallb_forall in Ce, S.
+    apply (canonical_entry_ok cdl kv (Ce kv Hkv) (S kv Hkv)). }
+  unfold to_query_str. rewrite Hm, (entries_text_pairs cdl m Eok). cbn [bind app].
+  eexists. split; [reflexivity|]. f_equal.
+  pose proof (all_pairs_nonempty cdl m Ce Hm) as Pne.
+  destruct (all_pairs cdl m) as [|p ps]; [contradiction|]. cbn [map concat].
+  assert (E : exists x t, with_amp p = x :: t).
+  { unfold with_amp. destruct (field_of p) as [|x t]; cbn [app]; eauto. }
+  destruct E as (x & t & ->). reflexivity.
+Qed.
